@@ -291,6 +291,18 @@ pub fn run_total(args: &[String]) {
             .into_iter()
             .map(|s| s.to_string())
             .collect();
+            // every escape introducer x what follows it (nothing, a multi-byte scalar of each width, alone or after one
+            // ASCII digit, a non-hex letter, well-formed digits) x every string prefix and quote
+            let mut toks = toks;
+            for open in ["\"", "b\"", "f\"", "r\"", "'", "b'", "rb\""] {
+                let close = if open.ends_with('\'') { "'" } else { "\"" };
+                for esc in ["\\x", "\\u{", "\\u", "\\", "\\N{", "\\0", "\\U"] {
+                    for follow in ["", "4é", "é", "€", "😀", "4€", "4😀", "zz", "41", "41}", "é}", "4", "{", "}"] {
+                        toks.push(format!("{open}{esc}{follow}{close}"));
+                        toks.push(format!("{open}a{esc}{follow}"));
+                    }
+                }
+            }
             let long_ident = "a".repeat(5000);
             let ctxs: Vec<&str> = vec![
                 "def f() -> None:\n    x = {T}\n",
